@@ -225,6 +225,12 @@ def core_models(I, st, caller, func, args, argtys, dest_ty):
                 outs.append(Outcome("return", z3.simplify(r), s2))
         return outs
     # ---- Ordering helpers -------------------------------------------------------------------
+    m = re.match(r"^<(?:std::cmp::)?Ordering as PartialEq>::(eq|ne)$", f)
+    if m:
+        a, b = deref_all(I, st, args[0]), deref_all(I, st, args[1])
+        da = a.discr if z3.is_expr(a.discr) else z3.IntVal(a.discr)
+        db_ = b.discr if z3.is_expr(b.discr) else z3.IntVal(b.discr)
+        return ret(st, z3.simplify(da == db_ if m.group(1) == "eq" else da != db_))
     m = re.match(r"^(?:std::cmp::)?Ordering::(is_eq|is_ne|is_lt|is_gt|is_le|is_ge|reverse|then)$", f)
     if m:
         v = deref_all(I, st, args[0])
@@ -275,6 +281,10 @@ def core_models(I, st, caller, func, args, argtys, dest_ty):
                 outs.append(Outcome("return", mk_option(not isgood, v.payloads[idx][0] if not isgood else None), s2))
             elif op == "unwrap_or":
                 outs.append(Outcome("return", v.payloads[idx][0] if isgood else args[1], s2))
+            elif op == "unwrap_or_default" and isgood:
+                outs.append(Outcome("return", v.payloads[idx][0], s2))
+            elif op == "unwrap_or_default" and re.match(r"^Option::<(%s)>::" % INT, f):
+                outs.append(Outcome("return", z3.IntVal(0), s2))
             else:
                 raise Unencodable(f)
         return outs
@@ -305,6 +315,10 @@ def core_models(I, st, caller, func, args, argtys, dest_ty):
     if m:
         # blanket impl: U::from(self)
         return I.dispatch_call(st, caller, "<%s as From<%s>>::from" % (m.group(2), m.group(1)), args, argtys, dest_ty)
+    if re.match(r"^(Option|Result)::<.*>::(as_ref|as_mut|as_deref)$", f):
+        v = deref_all(I, st, args[0])
+        if isinstance(v, EnumV):
+            return ret(st, v)  # references to payloads are transparent in the value model (payloads are immutable values here)
     if re.match(r"^<(Arc|Box|Rc)<.*> as (Deref|AsRef<.*>|Borrow<.*>)>::(deref|as_ref|borrow)$", f):
         return ret(st, args[0])  # smart pointers are transparent in the value model
     if re.match(r"^std::mem::drop::<.*>$", f) or f.startswith("std::mem::forget::<"):
